@@ -662,7 +662,7 @@ func genC33(r *rand.Rand) c33In {
 				}
 			default:
 				if l > 0 {
-					d[k] = uint64(r.Int63n(int64(l>>1) + 1))
+					d[k] = r.Uint64() % (l>>1 + 1)
 				}
 			}
 		}
